@@ -400,9 +400,9 @@ Qed.
 
 Lemma root_damage_fault st d : r_fault (root_damage st d) = false -> r_fault st = false.
 Proof.
-  unfold root_damage. destruct (rs_contains rsfuel (r_damage st) d) as [[|]|].
+  unfold root_damage. destruct (rs_contains (r_fuel st) (r_damage st) d) as [[|]|].
   - tauto.
-  - destruct (rs_add rsfuel (r_damage st) d) as [s|].
+  - destruct (rs_add (r_fuel st) (r_damage st) d) as [s|].
     + cbn [r_fault set_flags set_damage]. tauto.
     + cbn [r_fault set_fault]. discriminate.
   - cbn [r_fault set_fault]. discriminate.
@@ -554,19 +554,19 @@ Proof. reflexivity. Qed.
    operation of this file reads) *)
 Definition leq (s s' : root) : Prop :=
   r_tree s = r_tree s' /\ r_damage s = r_damage s' /\ r_queue s = r_queue s' /\
-  r_nexp s = r_nexp s' /\ r_nrest s = r_nrest s' /\ r_fault s = r_fault s'.
+  r_nexp s = r_nexp s' /\ r_nrest s = r_nrest s' /\ r_fault s = r_fault s' /\ r_fuel s = r_fuel s'.
 
 Lemma leq_trans a b c : leq a b -> leq b c -> leq a c.
 Proof. unfold leq. intuition congruence. Qed.
 
 Lemma root_damage_leq s s' d : leq s s' -> leq (root_damage s d) (root_damage s' d).
 Proof.
-  intros (A & B & C & D' & E & F). unfold root_damage. rewrite B.
-  destruct (rs_contains rsfuel (r_damage s') d) as [[|]|].
+  intros (A & B & C & D' & E & F & G). unfold root_damage. rewrite B, G.
+  destruct (rs_contains (r_fuel s') (r_damage s') d) as [[|]|].
   - unfold leq. tauto.
-  - destruct (rs_add rsfuel (r_damage s') d) as [x|]; unfold leq;
-      cbn [r_tree r_damage r_queue r_nexp r_nrest r_fault set_flags set_damage set_fault]; tauto.
-  - unfold leq; cbn [r_tree r_damage r_queue r_nexp r_nrest r_fault set_fault]; tauto.
+  - destruct (rs_add (r_fuel s') (r_damage s') d) as [x|]; unfold leq;
+      cbn [r_tree r_damage r_queue r_nexp r_nrest r_fault r_fuel r_fuel set_flags set_damage set_fault]; tauto.
+  - unfold leq; cbn [r_tree r_damage r_queue r_nexp r_nrest r_fault r_fuel r_fuel set_fault]; tauto.
 Qed.
 
 Lemma win_expose_leq s s' y ex : leq s s' -> leq (win_expose s y ex) (win_expose s' y ex).
@@ -578,11 +578,11 @@ Qed.
 
 Lemma qstep_leq s s' e : leq s s' -> leq (qstep s e) (qstep s' e).
 Proof.
-  intros H. pose proof H as (A & B & C & D' & E & F). destruct e as [[k p] w]. unfold qstep, do_hchange.
+  intros H. pose proof H as (A & B & C & D' & E & F & G). destruct e as [[k p] w]. unfold qstep, do_hchange.
   rewrite A. destruct (t_find w (r_tree s')) as [wn|]; [|exact H].
   assert (H1 : leq (set_tree s (t_upd_kids (apply_hchange k w) p (r_tree s')))
                    (set_tree s' (t_upd_kids (apply_hchange k w) p (r_tree s')))).
-  { unfold leq; cbn [r_tree r_damage r_queue r_nexp r_nrest r_fault set_tree]; tauto. }
+  { unfold leq; cbn [r_tree r_damage r_queue r_nexp r_nrest r_fault r_fuel set_tree]; tauto. }
   destruct (w_vis (t_info wn)); [apply win_expose_leq|]; exact H1.
 Qed.
 
@@ -594,9 +594,9 @@ Qed.
 Lemma root_damage_ql s d :
   r_queue (root_damage s d) = r_queue s /\ (r_later s = true -> r_later (root_damage s d) = true).
 Proof.
-  unfold root_damage. destruct (rs_contains rsfuel (r_damage s) d) as [[|]|].
+  unfold root_damage. destruct (rs_contains (r_fuel s) (r_damage s) d) as [[|]|].
   - tauto.
-  - destruct (rs_add rsfuel (r_damage s) d) as [x|];
+  - destruct (rs_add (r_fuel s) (r_damage s) d) as [x|];
       cbn [r_queue r_later set_flags set_damage set_fault]; tauto.
   - cbn [r_queue r_later set_fault]; tauto.
 Qed.
@@ -656,14 +656,14 @@ Proof.
   intros SI Hu Hl Hf. unfold ids_unique in *.
   assert (Hleq : leq (after_queue st) (queue_applied st)).
   { rewrite after_queue_eq. unfold queue_applied. apply fold_leq.
-    unfold leq; cbn [r_tree r_damage r_queue r_nexp r_nrest r_fault set_flags set_queue]; tauto. }
+    unfold leq; cbn [r_tree r_damage r_queue r_nexp r_nrest r_fault r_fuel set_flags set_queue]; tauto. }
   split; [exact Hleq|].
   assert (SIq : ScreenInv app (set_queue st []) tm).
   { destruct SI as [Ho Hrv Hs Hne Hc [Hf1 Hf2]].
     constructor; cbn [r_tree r_damage r_queue r_nexp r_later set_queue]; try assumption.
     split; [exact Hf1|]. intros H. exfalso. apply H. reflexivity. }
   destruct (queue_fold app tm (r_queue st) (set_queue st []) SIq Hu eq_refl Hl) as (A & B & C & D).
-  { fold (queue_applied st). destruct Hleq as (_ & _ & _ & _ & _ & <-). exact Hf. }
+  { fold (queue_applied st). destruct Hleq as (_ & _ & _ & _ & _ & <- & _). exact Hf. }
   fold (queue_applied st) in A, B, C, D.
   split; [exact A|]. split; [exact B|]. split; [exact C|]. split; [exact D|].
   destruct Hleq as (_ & _ & -> & _). exact C.
@@ -693,11 +693,11 @@ Proof.
   destruct (r_nexp (after_queue s')).
   - injection H1 as <- <- <-. injection H2 as <- <- <-.
     split; [reflexivity|]. split; [reflexivity|]. split; [|reflexivity].
-    unfold leq; cbn [r_tree r_damage r_queue r_nexp r_nrest r_fault set_flags set_damage]; tauto.
+    unfold leq; cbn [r_tree r_damage r_queue r_nexp r_nrest r_fault r_fuel set_flags set_damage]; tauto.
   - destruct (r_nrest (after_queue s')).
     + injection H1 as <- <- <-. injection H2 as <- <- <-.
       split; [reflexivity|]. split; [reflexivity|]. split; [|reflexivity].
-      unfold leq; cbn [r_tree r_damage r_queue r_nexp r_nrest r_fault set_flags]; tauto.
+      unfold leq; cbn [r_tree r_damage r_queue r_nexp r_nrest r_fault r_fuel set_flags]; tauto.
     + injection H1 as <- <- <-. injection H2 as <- <- <-.
       split; [reflexivity|]. split; [reflexivity|]. split; [exact Hleq|reflexivity].
 Qed.
@@ -735,7 +735,7 @@ Proof.
     unfold set_queue, set_flags; cbn. rewrite Hq2. reflexivity. }
   assert (Hleq2 : leq (after_queue st) (after_queue st2)).
   { apply (leq_trans _ st2); [exact Hleq|]. rewrite Haq2.
-    unfold leq; cbn [r_tree r_damage r_queue r_nexp r_nrest r_fault set_flags]; tauto. }
+    unfold leq; cbn [r_tree r_damage r_queue r_nexp r_nrest r_fault r_fuel set_flags]; tauto. }
   destruct (win_flush_leq _ _ st st2 tm _ _ _ _ _ _ Hl Hl2 Hleq2 Hfl Hfl2) as (-> & -> & HleqX & _).
   destruct (flush_establishes app progs st2 tm X Y Z SI2 Hq2 Hprogs Hfl2) as (Hd & Ht & Hcells & SIX).
   destruct HleqX as (A & B & C & D' & E & F).
